@@ -78,6 +78,7 @@ struct ChildSt {
     woken_since_poll: Cell<bool>,
     err: Cell<bool>,
     wake_on_ready: Cell<bool>,
+    up_err: Cell<bool>,
 }
 type St = Rc<ChildSt>;
 
@@ -175,6 +176,7 @@ enum Up {
     Item,
     Pending,
     End,
+    ErrItem,
 }
 struct UpSt {
     script: RefCell<VecDeque<Up>>,
@@ -212,6 +214,18 @@ impl<T> Stream for Upstream<T> {
                 st.children.borrow_mut().push(c.clone());
                 Poll::Ready(Some((self.mk)(id, c)))
             }
+            Up::ErrItem => {
+                // an upstream ERROR item of a try-adapter: no future is created; a placeholder keeps ids == indices
+                let id = st.produced.get();
+                st.produced.set(id + 1);
+                st.honest_remaining.set(st.honest_remaining.get().saturating_sub(1));
+                let c: St = Rc::new(ChildSt::default());
+                c.up_err.set(true);
+                c.dropped.set(1);
+                c.done.set(true);
+                st.children.borrow_mut().push(c.clone());
+                Poll::Ready(Some((self.mk)(id, c)))
+            }
             Up::Pending => Poll::Pending,
             Up::End => {
                 st.ended.set(true);
@@ -225,7 +239,7 @@ impl<T> Stream for Upstream<T> {
     }
 }
 fn upstream<T>(script: &[Up], mk: Box<dyn FnMut(usize, St) -> T>) -> (Upstream<T>, Rc<UpSt>) {
-    let items = script.iter().take_while(|u| **u != Up::End).filter(|u| **u == Up::Item).count();
+    let items = script.iter().take_while(|u| **u != Up::End).filter(|u| **u == Up::Item || **u == Up::ErrItem).count();
     let st = Rc::new(UpSt {
         script: RefCell::new(script.iter().copied().collect()),
         polls: Cell::new(0),
@@ -389,7 +403,16 @@ fn run_collections(prop: &'static str, seed: u64, iters: usize) {
         let mut yielded: Vec<usize> = vec![];
         let mut wakes_total = 0usize;
         let steps = 4 + rng.below(14);
-        let fail = |props: &[&str], hist: &Vec<String>, what: String| { if props.contains(&prop) { report(&Fail { prop, scenario: scenario.clone(), history: hist.clone(), what }) } };
+        // a refused push must leave the collection undisturbed (C15): once a push has been refused in this history, a
+        // lost / misordered output is ALSO evidence against C15
+        let refused = Cell::new(false);
+        let fail = |props: &[&str], hist: &Vec<String>, what: String| {
+            let via_refusal = prop == "C15" && refused.get() && (props.contains(&"C02") || props.contains(&"C04"));
+            if props.contains(&prop) || via_refusal {
+                let what = if via_refusal { format!("{what} (after a refused push in this history: the refusal disturbed the collection)") } else { what };
+                report(&Fail { prop, scenario: scenario.clone(), history: hist.clone(), what })
+            }
+        };
         for _ in 0..steps {
             match rng.below(10) {
                 0 | 1 | 2 => {
@@ -430,6 +453,7 @@ fn run_collections(prop: &'static str, seed: u64, iters: usize) {
                                 fail(&["C15","C06"], &hist, "try_push returned a different future".into());
                             }
                             drop(f);
+                            refused.set(true);
                             st.dropped.set(0); // the refused future was dropped by us
                             children.pop();
                             if coll.len() != before_len {
@@ -610,6 +634,9 @@ fn run_collections(prop: &'static str, seed: u64, iters: usize) {
                 hist.push("(drop collection)".into());
                 fail(&["C06"], &hist, format!("future {i} dropped {} times", c.dropped.get()));
             }
+            if c.moved.get() {
+                fail(&["C08"], &hist, format!("future {i} was polled at one address and polled again or dropped at another"));
+            }
             if c.done.get() && c.out_dropped.get() != 1 {
                 fail(&["C06"], &hist, format!("output {i} dropped {} times", c.out_dropped.get()));
             }
@@ -618,6 +645,119 @@ fn run_collections(prop: &'static str, seed: u64, iters: usize) {
 }
 
 // ------------------------------------------------------------------------------------------------ adapters (C09 C10 C16 C17 C04)
+// ------------------------------------------------------------------------------------------------ starvation scenarios (C13)
+/// K futures that wake themselves on every poll plus one victim that is woken once from outside: the victim must be
+/// polled again within a number of collection polls linear in the population, wherever it sits in the ready queue
+/// and however the population relates to the per-call budget (61 child polls) or to the group sizes.
+fn run_fairness(prop: &'static str) {
+    if prop != "C13" {
+        return;
+    }
+    for kind in 0..4usize {
+        for &k in &[1usize, 2, 31, 32, 33, 59, 60, 61, 62, 63, 64, 95, 96, 97, 121, 122, 123, 124, 125, 185, 186] {
+            for vpos in 0..3usize {
+                let total = k + 1;
+                let vidx = match vpos { 0 => 0, 1 => total / 2, _ => total - 1 };
+                let mut coll = match kind {
+                    0 => Coll::Fub(FuturesUnorderedBounded::new(total)),
+                    1 => Coll::Fu(FuturesUnordered::new()),
+                    2 => Coll::Fob(FuturesOrderedBounded::new(total)),
+                    _ => Coll::Fo(FuturesOrdered::new()),
+                };
+                let scenario = format!("{}: {k} futures that wake themselves on every poll + 1 victim pushed at position {vidx}", coll.name());
+                let mut children: Vec<St> = vec![];
+                let mut hist: Vec<String> = vec![];
+                for id in 0..total {
+                    let st: St = Rc::new(ChildSt::default());
+                    if id != vidx {
+                        st.self_wake.set(true);
+                    }
+                    children.push(st.clone());
+                    if coll.push_back(Fut::new(id, st)).is_err() {
+                        return;
+                    }
+                }
+                hist.push(format!("push x{total} (victim = {vidx})"));
+                let tw = Arc::new(CountWaker(AtomicUsize::new(0)));
+                let waker = Waker::from(tw.clone());
+                let mut cx = Context::from_waker(&waker);
+                // first: let every child be polled once (bounded number of calls)
+                let bound = 2 * total + 8;
+                let mut calls = 0;
+                while children[vidx].polls.get() == 0 && calls < bound {
+                    let _ = coll.poll(&mut cx);
+                    calls += 1;
+                }
+                hist.push(format!("poll x{calls}"));
+                if children[vidx].polls.get() == 0 {
+                    report(&Fail { prop, scenario, history: hist, what: format!("the pushed victim was not polled within {bound} polls of the collection") });
+                }
+                let before = children[vidx].polls.get();
+                wake_child(&children[vidx]);
+                hist.push(format!("wake({vidx})"));
+                let mut calls = 0;
+                while children[vidx].polls.get() == before && calls < bound {
+                    let _ = coll.poll(&mut cx);
+                    calls += 1;
+                }
+                hist.push(format!("poll x{calls}"));
+                if children[vidx].polls.get() == before {
+                    report(&Fail { prop, scenario, history: hist, what: format!("the woken victim was not polled again within {bound} polls of the collection ({} self-waking neighbours)", k) });
+                }
+            }
+        }
+    }
+}
+/// More children than the per-call budget (61 child polls), none of them waking: a poll that stops early must have woken
+/// its task (C13), and no pushed child may stay un-polled behind a Pending that nobody will follow up (C01).
+fn run_budget(prop: &'static str) {
+    for kind in 0..4usize {
+        for &n in &[60usize, 61, 62, 63, 100, 122, 123, 124, 200] {
+            let mut coll = match kind {
+                0 => Coll::Fub(FuturesUnorderedBounded::new(n)),
+                1 => Coll::Fu(FuturesUnordered::new()),
+                2 => Coll::Fob(FuturesOrderedBounded::new(n)),
+                _ => Coll::Fo(FuturesOrdered::new()),
+            };
+            let scenario = format!("{}: {n} pending futures pushed, none wakes", coll.name());
+            let mut children: Vec<St> = vec![];
+            for id in 0..n {
+                let st: St = Rc::new(ChildSt::default());
+                children.push(st.clone());
+                if coll.push_back(Fut::new(id, st)).is_err() {
+                    return;
+                }
+            }
+            let tw = Arc::new(CountWaker(AtomicUsize::new(0)));
+            let waker = Waker::from(tw.clone());
+            let mut cx = Context::from_waker(&waker);
+            let mut hist = vec![format!("push x{n}")];
+            for call in 0..(n + 4) {
+                let before = tw.0.load(Ordering::SeqCst);
+                let r = coll.poll(&mut cx);
+                let woke = tw.0.load(Ordering::SeqCst) > before;
+                hist.push(format!("poll -> {} (task woken: {woke})", if r.is_pending() { "Pending" } else { "Ready" }));
+                let unpolled = children.iter().filter(|c| c.polls.get() == 0).count();
+                if r.is_pending() && unpolled > 0 && !woke && (prop == "C01" || prop == "C13") {
+                    report(&Fail { prop, scenario, history: hist, what: format!("call {call} returned Pending with {unpolled} pushed futures never polled and did not wake its task") });
+                }
+                if unpolled == 0 {
+                    break;
+                }
+            }
+            // nobody woke anybody: every child is polled exactly once, for its push (C12)
+            for _ in 0..3 {
+                let _ = coll.poll(&mut cx);
+            }
+            let total: usize = children.iter().map(|c| c.polls.get()).sum();
+            if prop == "C12" && total > n {
+                let worst = children.iter().enumerate().max_by_key(|(_, c)| c.polls.get()).map(|(i, c)| (i, c.polls.get())).unwrap();
+                hist.push("poll x3".into());
+                report(&Fail { prop, scenario, history: hist, what: format!("{total} child polls for {n} pushes and no wake at all (future {} was polled {} times)", worst.0, worst.1) });
+            }
+        }
+    }
+}
 fn run_adapters(prop: &'static str, seed: u64, iters: usize) {
     let mut rng = Rng(seed.wrapping_mul(0xD1B54A32D192ED03) | 1);
     for it in 0..iters {
@@ -629,6 +769,12 @@ fn run_adapters(prop: &'static str, seed: u64, iters: usize) {
         for _ in 0..len {
             script.push(if !burst && rng.below(4) == 0 { Up::Pending } else { Up::Item });
         }
+        let which = rng.below(5);
+        if (which == 2 || which == 3) && !burst && rng.below(3) == 0 {
+            for u in script.iter_mut() {
+                if *u == Up::Item && rng.below(4) == 0 { *u = Up::ErrItem; }
+            }
+        }
         script.push(Up::End);
         let err_mask: u64 = if rng.below(3) == 0 { rng.next() & rng.next() } else { 0 };
         let ready_mask: u64 = if burst { u64::MAX } else if rng.below(2) == 0 { rng.next() } else { 0 };
@@ -636,7 +782,6 @@ fn run_adapters(prop: &'static str, seed: u64, iters: usize) {
             if (err_mask >> (id % 64)) & 1 == 1 { c.err.set(true); }
             if (ready_mask >> (id % 64)) & 1 == 1 { c.ready.set(true); }
         };
-        let which = rng.below(5);
         let names = ["buffered_unordered", "buffered_ordered", "try_buffered_unordered", "try_buffered_ordered", "for_each_concurrent"];
         let scenario = format!("{}({n}) upstream={:?}", names[which], script);
         let ordered = which == 1 || which == 3;
@@ -658,11 +803,11 @@ fn run_adapters(prop: &'static str, seed: u64, iters: usize) {
                 (Box::pin(MapOk(u.buffered_ordered(n))), st)
             }
             2 => {
-                let (u, st) = upstream(&script, Box::new(move |id, c| { init(id, &c); Ok::<TFut, usize>(TFut(Fut::new(id, c))) }));
+                let (u, st) = upstream(&script, Box::new(move |id, c: St| { if c.up_err.get() { return Err(id); } init(id, &c); Ok::<TFut, usize>(TFut(Fut::new(id, c))) }));
                 (Box::pin(MapTry(u.try_buffered_unordered(n))), st)
             }
             3 => {
-                let (u, st) = upstream(&script, Box::new(move |id, c| { init(id, &c); Ok::<TFut, usize>(TFut(Fut::new(id, c))) }));
+                let (u, st) = upstream(&script, Box::new(move |id, c: St| { if c.up_err.get() { return Err(id); } init(id, &c); Ok::<TFut, usize>(TFut(Fut::new(id, c))) }));
                 (Box::pin(MapTry(u.try_buffered_ordered(n))), st)
             }
             _ => {
@@ -693,22 +838,25 @@ fn run_adapters(prop: &'static str, seed: u64, iters: usize) {
                     let r = s.as_mut().poll_next(&mut cx);
                     let cs = ust.children.borrow();
                     let in_flight = cs.iter().filter(|c| c.dropped.get() == 0).count();
-                    let pulled_not_yielded = cs.len() - yielded.len();
+                    let futs_pulled = cs.iter().filter(|c| !c.up_err.get()).count();
+                    let futs_yielded = |y: &Vec<usize>| y.iter().filter(|i| !cs[**i].up_err.get()).count();
+                    let pulled_not_yielded = futs_pulled - futs_yielded(&yielded);
                     match r {
                         Poll::Ready(Some(Ok(id))) | Poll::Ready(Some(Err(id))) => {
                             hist.push(format!("poll -> item {id}"));
                             if yielded.contains(&id) {
                                 fail(&["C02","C10"], &hist, format!("item {id} yielded twice"));
                             }
-                            if ordered && id != yielded.len() {
-                                fail(&["C04"], &hist, format!("ordered adapter yielded item {id}, expected {}", yielded.len()));
+                            let expected = (0..cs.len()).find(|i| !cs[*i].up_err.get() && !yielded.contains(i));
+                            if ordered && !cs[id].up_err.get() && Some(id) != expected {
+                                fail(&["C04"], &hist, format!("ordered adapter yielded item {id}, expected {expected:?}"));
                             }
                             yielded.push(id);
                         }
                         Poll::Ready(None) => {
                             hist.push("poll -> None".into());
                             if !ust.ended.get() || which != 4 && yielded.len() != cs.len() {
-                                fail(&["C10"], &hist, format!("None although upstream ended={} and {} of {} pulled items were yielded", ust.ended.get(), yielded.len(), cs.len()));
+                                fail(&["C10"], &hist, format!("None although upstream ended={} and {} of {} pulled items (futures' outputs and upstream errors) were yielded", ust.ended.get(), yielded.len(), cs.len()));
                             }
                             if which == 4 && (cs.iter().any(|c| !c.done.get()) || called.get() != cs.len()) {
                                 fail(&["C10"], &hist, "for_each_concurrent completed with futures unfinished / items not passed to f".into());
@@ -747,6 +895,9 @@ fn run_adapters(prop: &'static str, seed: u64, iters: usize) {
                         if c.polled_after_done.get() {
                             fail(&["C05"], &hist, format!("future {i} polled after completion"));
                         }
+                        if c.moved.get() {
+                            fail(&["C08"], &hist, format!("future {i} observed at two different addresses"));
+                        }
                     }
                 }
             }
@@ -759,6 +910,9 @@ fn run_adapters(prop: &'static str, seed: u64, iters: usize) {
             if c.dropped.get() != 1 {
                 hist.push("(drop adapter)".into());
                 fail(&["C06"], &hist, format!("future {i} dropped {} times", c.dropped.get()));
+            }
+            if c.moved.get() {
+                fail(&["C08"], &hist, format!("future {i} was polled at one address and polled again or dropped at another"));
             }
         }
     }
@@ -898,6 +1052,9 @@ fn run_join(prop: &'static str, seed: u64, iters: usize) {
                         if c.polled_after_done.get() {
                             fail(&["C05"], &hist, format!("input {i} polled after completion"));
                         }
+                        if c.moved.get() {
+                            fail(&["C08"], &hist, format!("input {i} observed at two different addresses"));
+                        }
                     }
                 }
             }
@@ -908,6 +1065,9 @@ fn run_join(prop: &'static str, seed: u64, iters: usize) {
         for (i, c) in children.iter().enumerate() {
             if c.dropped.get() != 1 {
                 fail(&["C06"], &hist, format!("input future {i} dropped {} times", c.dropped.get()));
+            }
+            if c.moved.get() {
+                fail(&["C08"], &hist, format!("future {i} was polled at one address and polled again or dropped at another"));
             }
             if c.done.get() && !c.err.get() && c.out_dropped.get() != 1 {
                 fail(&["C06"], &hist, format!("output of input {i} dropped {} times", c.out_dropped.get()));
@@ -930,25 +1090,36 @@ struct SrcSt {
     waker: RefCell<Option<Waker>>,
     dropped: Cell<usize>,
     always_ready: Cell<bool>,
+    addr: Cell<usize>,
+    moved: Cell<bool>,
+    /// pushed, or woken through its own waker, and not polled since
+    fresh: Cell<bool>,
 }
 impl Unpin for Src {}
 impl Drop for Src {
     fn drop(&mut self) {
         self.st.dropped.set(self.st.dropped.get() + 1);
+        let a = self as *const _ as usize;
+        if self.st.addr.get() != 0 && self.st.addr.get() != a {
+            self.st.moved.set(true);
+        }
     }
 }
 impl Stream for Src {
     type Item = (usize, usize);
     fn poll_next(self: Pin<&mut Self>, cx: &mut Context<'_>) -> Poll<Option<(usize, usize)>> {
         let st = &self.st;
+        let a = &*self as *const _ as usize;
+        if st.addr.get() == 0 { st.addr.set(a); } else if st.addr.get() != a { st.moved.set(true); }
         st.polls.set(st.polls.get() + 1);
+        st.fresh.set(false);
         if st.ended.get() {
             st.polled_after_end.set(true);
             return Poll::Ready(None);
         }
         let next = if st.always_ready.get() { Up::Item } else { st.script.borrow_mut().pop_front().unwrap_or(Up::End) };
         match next {
-            Up::Item => {
+            Up::Item | Up::ErrItem => {
                 let s = st.seq.get();
                 st.seq.set(s + 1);
                 Poll::Ready(Some((st.id, s)))
@@ -970,7 +1141,7 @@ fn mk_src(id: usize, rng: &mut Rng) -> (Src, Rc<SrcSt>) {
         script.push_back(if rng.below(3) == 0 { Up::Pending } else { Up::Item });
     }
     script.push_back(Up::End);
-    let st = Rc::new(SrcSt { id, script: RefCell::new(script), seq: Cell::new(0), ended: Cell::new(false), polled_after_end: Cell::new(false), polls: Cell::new(0), waker: RefCell::new(None), dropped: Cell::new(0), always_ready: Cell::new(false) });
+    let st = Rc::new(SrcSt { id, script: RefCell::new(script), seq: Cell::new(0), ended: Cell::new(false), polled_after_end: Cell::new(false), polls: Cell::new(0), waker: RefCell::new(None), dropped: Cell::new(0), always_ready: Cell::new(false), fresh: Cell::new(true), addr: Cell::new(0), moved: Cell::new(false) });
     (Src { st: st.clone() }, st)
 }
 fn run_merge(prop: &'static str, seed: u64, iters: usize) {
@@ -1005,10 +1176,60 @@ fn run_merge(prop: &'static str, seed: u64, iters: usize) {
             report(&Fail { prop, scenario: "MergeUnbounded: source 0 always ready, 1..31 pending (group 0), source 32 ready (group 1)".into(), history: vec!["109 polls".into()], what: "source 32 was never polled: a permanently ready source in an earlier group starves it".into() });
         }
     }
+    // fairness scenarios (C13): one permanently ready source, one victim that becomes ready (and wakes) later; wherever the
+    // two sit (same group, earlier group, later group, first/last slot) the victim's item arrives within a linear bound
+    if prop == "C13" {
+        for unb in [true, false] {
+            for &nsrc in &[2usize, 33, 34, 63, 97, 98] {
+                let spots = [0usize, 1, 31, 32, 33, 96, nsrc - 1];
+                for &busy in &spots {
+                    for &victim in &spots {
+                        if busy >= nsrc || victim >= nsrc || busy == victim {
+                            continue;
+                        }
+                        let mut sts = vec![];
+                        let mut srcs = vec![];
+                        for i in 0..nsrc {
+                            let (s, st) = mk_src(i, &mut rng);
+                            st.script.borrow_mut().clear();
+                            for _ in 0..2000 { st.script.borrow_mut().push_back(Up::Pending); }
+                            if i == busy { st.always_ready.set(true); }
+                            sts.push(st);
+                            srcs.push(s);
+                        }
+                        enum M2 { B(MergeBounded<Src>), U(MergeUnbounded<Src>) }
+                        let mut m = if unb { let mut m = MergeUnbounded::new(); for s in srcs { m.push(s); } M2::U(m) } else { M2::B(srcs.into_iter().collect()) };
+                        let tw = Arc::new(CountWaker(AtomicUsize::new(0)));
+                        let waker = Waker::from(tw.clone());
+                        let mut cx = Context::from_waker(&waker);
+                        let mut poll = |m: &mut M2| match m { M2::B(m) => Pin::new(m).poll_next(&mut cx), M2::U(m) => Pin::new(m).poll_next(&mut cx) };
+                        for _ in 0..(nsrc + 5) { let _ = poll(&mut m); }
+                        sts[victim].script.borrow_mut().push_front(Up::Item);
+                        let w = sts[victim].waker.borrow().clone();
+                        if let Some(w) = w { w.wake_by_ref(); }
+                        let bound = 3 * nsrc + 10;
+                        let mut seen = false;
+                        for _ in 0..bound {
+                            if let Poll::Ready(Some((id, _))) = poll(&mut m) { if id == victim { seen = true; break; } }
+                        }
+                        if !seen {
+                            report(&Fail { prop, scenario: format!("{}: {nsrc} sources, source {busy} permanently ready, the others pending; source {victim} gets an item and wakes after {} polls", if unb { "MergeUnbounded" } else { "MergeBounded" }, nsrc + 5),
+                                history: vec![format!("poll x{}", nsrc + 5), format!("source {victim} ready + wake"), format!("poll x{bound}")],
+                                what: format!("the item of woken source {victim} was not yielded within {bound} polls (polls of that source: {})", sts[victim].polls.get()) });
+                        }
+                    }
+                }
+            }
+        }
+    }
     for it in 0..iters {
         let unbounded = rng.below(2) == 0;
         // every 50th history: many sources that end (or yield) in the same poll, to cross per-poll budgets
-        let nsrc = if it % 50 == 49 { 62 + rng.below(40) } else { 1 + rng.below(4) };
+        // every 10th history: three groups' worth of sources (32 + 64 + rest), each group with one behaviour
+        // (all pending / all ending at once / all ready / mixed), so that whole groups empty or block within one pass
+        let grouped = it % 10 == 4;
+        let nsrc = if grouped { 97 + rng.below(40) } else if it % 50 == 49 { 62 + rng.below(40) } else { 1 + rng.below(4) };
+        let modes = [rng.below(4), rng.below(4), rng.below(4)];
         let scenario = format!("{}({nsrc} sources)", if unbounded { "MergeUnbounded" } else { "MergeBounded" });
         let mut hist: Vec<String> = vec![];
         let fail = |props: &[&str], hist: &Vec<String>, what: String| { if props.contains(&prop) { report(&Fail { prop, scenario: scenario.clone(), history: hist.clone(), what }) } };
@@ -1016,12 +1237,22 @@ fn run_merge(prop: &'static str, seed: u64, iters: usize) {
         let mut srcs = vec![];
         for i in 0..nsrc {
             let (s, st) = mk_src(i, &mut rng);
-            if nsrc >= 62 {
+            if grouped {
+                let g = if i < 32 { 0 } else if i < 96 { 1 } else { 2 };
+                let mut sc = st.script.borrow_mut();
+                match modes[g] {
+                    0 => { sc.clear(); for _ in 0..40 { sc.push_back(Up::Pending); } sc.push_back(Up::End); }
+                    1 => { sc.clear(); sc.push_back(Up::End); }
+                    2 => { sc.clear(); sc.push_back(Up::Item); sc.push_back(Up::Item); sc.push_back(Up::End); }
+                    _ => {}
+                }
+                if i == 0 { hist.push(format!("{nsrc} sources pushed one by one; sources 0..32 / 32..96 / 96.. behave as {:?} (0 = pending x40 then end, 1 = end at once, 2 = two items then end, 3 = random scripts)", modes)); }
+            } else if nsrc >= 62 {
                 st.script.borrow_mut().clear();
                 if it % 100 == 49 && rng.below(4) == 0 { st.script.borrow_mut().push_back(Up::Item); }
                 st.script.borrow_mut().push_back(Up::End);
             }
-            if nsrc < 62 { hist.push(format!("source {i}: {:?}", st.script.borrow())); } else if i == 0 { hist.push(format!("{nsrc} sources, each ending at once (one in four after a single item)")); }
+            if nsrc < 62 { hist.push(format!("source {i}: {:?}", st.script.borrow())); } else if i == 0 && !grouped { hist.push(format!("{nsrc} sources, each ending at once (one in four after a single item)")); }
             sts.push(st);
             srcs.push(s);
         }
@@ -1029,7 +1260,9 @@ fn run_merge(prop: &'static str, seed: u64, iters: usize) {
             B(MergeBounded<Src>),
             U(MergeUnbounded<Src>),
         }
-        let mut m = if unbounded { M::U(srcs.into_iter().collect()) } else { M::B(srcs.into_iter().collect()) };
+        let mut m = if unbounded {
+            if grouped || rng.below(2) == 0 { let mut mu = MergeUnbounded::new(); for s in srcs { mu.push(s); } M::U(mu) } else { M::U(srcs.into_iter().collect()) }
+        } else { M::B(srcs.into_iter().collect()) };
         let tw = Arc::new(CountWaker(AtomicUsize::new(0)));
         let waker = Waker::from(tw.clone());
         let mut cx = Context::from_waker(&waker);
@@ -1040,6 +1273,7 @@ fn run_merge(prop: &'static str, seed: u64, iters: usize) {
                 let i = rng.below(nsrc);
                 if let Some(w) = sts[i].waker.borrow().as_ref() {
                     w.wake_by_ref();
+                    sts[i].fresh.set(true);
                 }
                 hist.push(format!("wake({i})"));
                 continue;
@@ -1070,12 +1304,20 @@ fn run_merge(prop: &'static str, seed: u64, iters: usize) {
                     if sts.iter().all(|s| s.ended.get()) {
                         fail(&["C11"], &hist, "Pending although every source has ended".into());
                     }
-                    let _ = before;
+                    if tw.0.load(Ordering::SeqCst) == before {
+                        let missed: Vec<usize> = sts.iter().enumerate().filter(|(_, s)| !s.ended.get() && s.fresh.get()).map(|(i, _)| i).collect();
+                        if !missed.is_empty() {
+                            fail(&["C01","C11"], &hist, format!("Pending with sources {:?} pushed/woken but not polled and the task waker not invoked", &missed[..missed.len().min(8)]));
+                        }
+                    }
                 }
             }
             for (i, s) in sts.iter().enumerate() {
                 if s.polled_after_end.get() {
                     fail(&["C05","C11"], &hist, format!("source {i} polled again after it returned None"));
+                }
+                if s.moved.get() {
+                    fail(&["C08"], &hist, format!("source stream {i} observed at two different addresses"));
                 }
                 if s.ended.get() && s.dropped.get() != 1 {
                     fail(&["C05"], &hist, format!("ended source {i} not dropped by the time its None was observed (drops={})", s.dropped.get()));
@@ -1222,7 +1464,22 @@ fn main() {
         i += 1;
     }
     match prop {
-        "C01" | "C02" | "C08" | "C12" | "C14" | "C15" => run_collections(prop, seed, iters),
+        "C01" => {
+            run_budget(prop);
+            run_collections(prop, seed, iters);
+            run_merge(prop, seed, iters / 2);
+        }
+        "C08" => {
+            run_collections(prop, seed, iters);
+            run_join(prop, seed, iters / 2);
+            run_adapters(prop, seed, iters / 2);
+            run_merge(prop, seed, iters / 4);
+        }
+        "C12" => {
+            run_budget(prop);
+            run_collections(prop, seed, iters);
+        }
+        "C02" | "C14" | "C15" => run_collections(prop, seed, iters),
         "C05" => {
             run_collections(prop, seed, iters);
             run_merge(prop, seed, iters / 2);
@@ -1249,6 +1506,8 @@ fn main() {
         }
         "C11" => run_merge(prop, seed, iters),
         "C13" => {
+            run_budget(prop);
+            run_fairness(prop);
             run_merge(prop, seed, iters);
             run_collections(prop, seed, iters / 2);
         }
